@@ -36,7 +36,27 @@ type Bad = (String, String); // (clause, what)
 
 impl World {
     fn new() -> World {
-        let xot = Xot::new();
+        World::from_xot(Xot::new())
+    }
+
+    /// a store that came into being in another way than Xot::new(): through Default, or as the value std::mem::take
+    /// leaves behind in place of a store that has been in use
+    fn new_by(how: usize) -> World {
+        match how {
+            0 => World::from_xot(Xot::default()),
+            _ => {
+                let mut used = Xot::new();
+                for k in 0..7 {
+                    used.add_name(&format!("used{}", k));
+                    used.add_prefix(&format!("usedp{}", k));
+                }
+                let _taken = std::mem::take(&mut used);
+                World::from_xot(used)
+            }
+        }
+    }
+
+    fn from_xot(xot: Xot) -> World {
         let mut m = Model::default();
         // built-ins
         m.nss.insert(String::new(), xot.no_namespace());
@@ -228,8 +248,20 @@ impl World {
 }
 
 fn short_history(rng: &mut Rng, ctx: &mut Ctx) -> Result<(), (Bad, Vec<String>)> {
-    let mut w = World::new();
     let mut log: Vec<String> = Vec::new();
+    let mut w = match rng.below(8) {
+        0 => {
+            log.push("store = Xot::default()".to_string());
+            ctx.count("stores_from_default");
+            World::new_by(0)
+        }
+        1 => {
+            log.push("store = what std::mem::take left behind".to_string());
+            ctx.count("stores_from_default");
+            World::new_by(1)
+        }
+        _ => World::new(),
+    };
     let hot = ["a", "b", "id", "space", "xml", "", "p", "urn:A", "A", "a ", "n0", "n1"];
     let mut fresh = 0usize;
     let mut clone: Option<World> = None;
@@ -564,8 +596,17 @@ fn short_history(rng: &mut Rng, ctx: &mut Ctx) -> Result<(), (Bad, Vec<String>)>
                 // taken to the other store: every resolution is judged on its own
                 use xot::xmlname::OwnedName;
                 let ns = hot[rng.below(hot.len())].to_string();
-                let pfx = if which == 23 { String::new() } else { hot[rng.below(hot.len())].to_string() };
-                let ns = if which == 23 { String::new() } else { ns };
+                // with_default_namespace only applies to a name without prefix AND without namespace: all four combinations
+                let (ns, pfx) = if which == 23 {
+                    match rng.below(5) {
+                        0 | 1 => (String::new(), String::new()),
+                        2 => (ns, String::new()),
+                        3 => (String::new(), hot[rng.below(hot.len())].to_string()),
+                        _ => (ns, hot[rng.below(hot.len())].to_string()),
+                    }
+                } else {
+                    (ns, hot[rng.below(hot.len())].to_string())
+                };
                 let on = OwnedName::new(s.clone(), ns.clone(), pfx.clone());
                 log.push(format!("OwnedName::new({:?}, {:?}, {:?}).to_create(); then .with_suffix() / .with_default_namespace(\"urn:A\") .to_create()", s, ns, pfx));
                 let id0 = match guard(|| on.to_create(&mut target.xot).name_id()) {
@@ -578,7 +619,13 @@ fn short_history(rng: &mut Rng, ctx: &mut Ctx) -> Result<(), (Bad, Vec<String>)>
                 }
                 tr!(target.note_name(&s, &ns, id0, "OwnedName::to_create"));
                 let changed = if which == 22 { on.clone().with_suffix() } else { on.clone().with_default_namespace("urn:A") };
-                let (want_l, want_ns) = if which == 22 { (format!("{}*", s), ns.clone()) } else { (s.clone(), "urn:A".to_string()) };
+                let (want_l, want_ns) = if which == 22 {
+                    (format!("{}*", s), ns.clone())
+                } else if ns.is_empty() && pfx.is_empty() {
+                    (s.clone(), "urn:A".to_string())
+                } else {
+                    (s.clone(), ns.clone())
+                };
                 let id1 = match guard(|| changed.to_create(&mut target.xot).name_id()) {
                     Ok(i) => i,
                     Err(p) => return Err((("panic".into(), p.short()), log.clone())),
